@@ -39,3 +39,45 @@ Print Assumptions C14_sumplus_negation_refuted.
 Theorem C14_mul_eq_not_always_solvable : ~ (forall x : Z, exists y : Z, x = (y * 3)%Z).
 Proof. exact (@mul_eq_not_always_solvable_proof). Qed.
 Print Assumptions C14_mul_eq_not_always_solvable.
+
+From NGO Require Import Sem.Sym Sem.Sat Model.Math Link.MathSpec.
+
+Theorem C14_sympy2ast_total : forall (g : genv) (e : sexpr), good (sympy2ast g e).
+Proof. exact (@MathSpec.sympy2ast_total). Qed.
+Print Assumptions C14_sympy2ast_total.
+
+Theorem C14_sympy2ast_ok_iff : forall (g : genv) (e : sexpr), (exists t : Ast.term, sympy2ast g e = Ast.Ok (RTerm t)) <-> okb g e = true.
+Proof. exact (@MathSpec.sympy2ast_ok_iff). Qed.
+Print Assumptions C14_sympy2ast_ok_iff.
+
+Theorem C14_sympy2ast_rejects_rationals : forall (g : genv) (e : sexpr) (p : Z) (q : positive), subexpr (SRat p q) e -> forall r : sast, sympy2ast g e <> Ast.Ok r.
+Proof. exact (@MathSpec.sympy2ast_rejects_rationals). Qed.
+Print Assumptions C14_sympy2ast_rejects_rationals.
+
+Theorem C14_sympy2ast_rejects_mod_floor_other : forall (g : genv) (e : sexpr) (f : sfunc) (args : list sexpr), subexpr (SApp f args) e -> match f with | FMod | FFloor | FOther _ => True | _ => False end -> forall r : sast, sympy2ast g e <> Ast.Ok r.
+Proof. exact (@MathSpec.sympy2ast_rejects_mod_floor_other). Qed.
+Print Assumptions C14_sympy2ast_rejects_mod_floor_other.
+
+Theorem C14_sympy2ast_sound : forall (g : genv) (s : subst) (sg : skey -> Z), env_agrees g s sg -> forall (e : sexpr) (t : Ast.term) (v : Z), sympy2ast g e = Ast.Ok (RTerm t) -> pos_ok sg e -> eval s t = Some (Ast.SNum v) <-> (exists q : QArith_base.Q, seval sg e = Some q /\ QArith_base.Qeq q (QArith_base.inject_Z v)).
+Proof. exact (@MathSpec.sympy2ast_sound). Qed.
+Print Assumptions C14_sympy2ast_sound.
+
+Theorem C14_sympy2ast_vars : forall (g : genv) (e : sexpr) (t : Ast.term), sympy2ast g e = Ast.Ok (RTerm t) -> Ast.vars_term t = flat_map (sym_vars g) (symbols e).
+Proof. exact (@MathSpec.sympy2ast_vars). Qed.
+Print Assumptions C14_sympy2ast_vars.
+
+Theorem C14_to_sympy_term_sound : forall (s : subst) (sg : skey -> Z) (t : Ast.term) (st : tstate) (e : sexpr) (st' : tstate) (v : Z), to_sympy_term t st = Ast.Ok (Some e, st') -> vars_agree s sg t -> divs_nonneg s t -> eval s t = Some (Ast.SNum v) -> exists q : QArith_base.Q, seval sg e = Some q /\ QArith_base.Qeq q (QArith_base.inject_Z v).
+Proof. exact (@MathSpec.to_sympy_term_sound). Qed.
+Print Assumptions C14_to_sympy_term_sound.
+
+Theorem C14_div_negative_refuted : value_is (Ast.TBin Ast.BDiv (Ast.TBin Ast.BMinus (Ast.TSym (Ast.SNum 0)) (Ast.TSym (Ast.SNum 7))) (Ast.TSym (Ast.SNum 2))) (-3) (-4).
+Proof. exact (@MathSpec.div_negative_refuted). Qed.
+Print Assumptions C14_div_negative_refuted.
+
+Theorem C14_mod_negative_refuted : value_is (Ast.TBin Ast.BMod (Ast.TBin Ast.BMinus (Ast.TSym (Ast.SNum 0)) (Ast.TSym (Ast.SNum 7))) (Ast.TSym (Ast.SNum 2))) (-1) 1.
+Proof. exact (@MathSpec.mod_negative_refuted). Qed.
+Print Assumptions C14_mod_negative_refuted.
+
+Theorem C14_sumplus_scaling_refuted : sumplus_of ((Ast.SNum (1 * -1) :: nil) :: nil) <> (-1 * sumplus_of ((Ast.SNum 1 :: nil) :: nil))%Z.
+Proof. exact (@MathSpec.sumplus_scaling_refuted). Qed.
+Print Assumptions C14_sumplus_scaling_refuted.
